@@ -41,16 +41,77 @@ type c08Call struct {
 	Init    []string `json:"init,omitempty"` // canonical rendering of the initial destination value(s)
 	InitNil bool     `json:"init_nil,omitempty"`
 	Layout  string   `json:"layout,omitempty"` // Time / MustTime / Times / MustTimes: the layout argument
+	// long value lists, written compactly: Pad texts (PadTexts cycled) come BEFORE Values — as that many
+	// separate values of the parameter, or (PadJoin, delimiter calls) as that many pieces joined with Delim
+	// in front of the first value
+	Pad      int      `json:"pad,omitempty"`
+	PadTexts []string `json:"pad_texts,omitempty"`
+	PadJoin  bool     `json:"pad_join,omitempty"`
+}
+
+// c08Expand: pad texts (cycled) followed by the explicit values
+func c08Expand(values []string, pad int, padTexts []string) []string {
+	if pad <= 0 || len(padTexts) == 0 {
+		return values
+	}
+	out := make([]string, 0, pad+len(values))
+	for i := 0; i < pad; i++ {
+		out = append(out, padTexts[i%len(padTexts)])
+	}
+	return append(out, values...)
+}
+
+// all: the values of the parameter as the request carries them
+func (cl *c08Call) all() []string {
+	if cl.Pad > 0 && cl.PadJoin && len(cl.PadTexts) > 0 {
+		first := strings.Join(c08Expand(nil, cl.Pad, cl.PadTexts), cl.Delim)
+		if len(cl.Values) == 0 {
+			return []string{first}
+		}
+		return append([]string{first + cl.Delim + cl.Values[0]}, cl.Values[1:]...)
+	}
+	return c08Expand(cl.Values, cl.Pad, cl.PadTexts)
+}
+
+// c08L renders a list of texts in failure messages: long lists are abbreviated
+type c08L []string
+
+func (l c08L) String() string {
+	if len(l) <= 12 {
+		return fmt.Sprintf("%q", []string(l))
+	}
+	return fmt.Sprintf("[%d texts: %q %q %q … %q %q %q]", len(l), l[0], l[1], l[2], l[len(l)-3], l[len(l)-2], l[len(l)-1])
+}
+
+// c08CountTag: evidence bucket for the number of values / pieces one destination receives
+func c08CountTag(n int) string {
+	switch {
+	case n > 65536:
+		return "many-values:65537+"
+	case n > 4096:
+		return "many-values:4097+"
+	case n > 1024:
+		return "many-values:1025+"
+	case n > 256:
+		return "many-values:257+"
+	case n > 64:
+		return "many-values:65+"
+	}
+	return ""
 }
 
 // a CustomFunc / MustCustomFunc call; the user function is c08CustomApply(Mode, …)
 type c08Custom struct {
-	Must    bool     `json:"must,omitempty"`
-	Values  []string `json:"v"`
-	Mode    string   `json:"mode,omitempty"` // "" strict | sloppy (writes even when it fails) | empty (returns []error{} when fine)
-	Init    []string `json:"init,omitempty"`
-	InitNil bool     `json:"init_nil,omitempty"`
+	Must     bool     `json:"must,omitempty"`
+	Values   []string `json:"v"`
+	Mode     string   `json:"mode,omitempty"` // "" strict | sloppy (writes even when it fails) | empty (returns []error{} when fine)
+	Init     []string `json:"init,omitempty"`
+	InitNil  bool     `json:"init_nil,omitempty"`
+	Pad      int      `json:"pad,omitempty"` // that many texts (PadTexts cycled) before Values
+	PadTexts []string `json:"pad_texts,omitempty"`
 }
+
+func (cu *c08Custom) all() []string { return c08Expand(cu.Values, cu.Pad, cu.PadTexts) }
 
 // the user function of the harness: one error per value starting with `!`; stores the values
 func c08CustomApply(mode string, values []string, dest *[]string) []error {
@@ -77,9 +138,13 @@ type c08Op struct {
 }
 
 type c08Field struct {
-	Name   string   `json:"name"`
-	Values []string `json:"v"`
+	Name     string   `json:"name"`
+	Values   []string `json:"v"`
+	Pad      int      `json:"pad,omitempty"` // that many texts (PadTexts cycled) before Values: long value lists, written compactly
+	PadTexts []string `json:"pad_texts,omitempty"`
 }
+
+func (f c08Field) all() []string { return c08Expand(f.Values, f.Pad, f.PadTexts) }
 
 type c08Case struct {
 	Kind     string     `json:"kind"`             // vb | struct
@@ -815,9 +880,9 @@ func c08RunVB(c *c08Case) (res Result) {
 	for i, op := range c.Ops {
 		var vals []string
 		if op.Kind == "call" && op.Call != nil {
-			vals = op.Call.Values
+			vals = op.Call.all()
 		} else if op.Kind == "custom" && op.Custom != nil {
-			vals = op.Custom.Values
+			vals = op.Custom.all()
 		}
 		for _, v := range vals {
 			q.Add("p"+strconv.Itoa(i), v)
@@ -840,9 +905,9 @@ func c08RunVB(c *c08Case) (res Result) {
 		for i, op := range c.Ops {
 			var vals []string
 			if op.Kind == "call" && op.Call != nil {
-				vals = op.Call.Values
+				vals = op.Call.all()
 			} else if op.Kind == "custom" && op.Custom != nil {
-				vals = op.Custom.Values
+				vals = op.Custom.all()
 			}
 			for _, v := range vals {
 				mw.WriteField("p"+strconv.Itoa(i), v)
@@ -936,7 +1001,10 @@ func c08RunVB(c *c08Case) (res Result) {
 				continue
 			}
 			cu := op.Custom
-			vals := seen(cu.Values)
+			vals := seen(cu.all())
+			if t := c08CountTag(len(vals)); t != "" {
+				tags = append(tags, t)
+			}
 			dest := new([]string)
 			if !cu.InitNil {
 				*dest = append([]string{}, cu.Init...)
@@ -998,7 +1066,7 @@ func c08RunVB(c *c08Case) (res Result) {
 			case failFast && pending > 0:
 				tags = append(tags, "frozen")
 				if invoked != 0 || changed || delta != 0 {
-					fail(i, "fail-fast binder with a recorded error: the custom function was invoked %d times (destination %v -> %v, %d new errors)", invoked, initVals, vals2, delta)
+					fail(i, "fail-fast binder with a recorded error: the custom function was invoked %d times (destination %v -> %v, %d new errors)", invoked, c08L(initVals), c08L(vals2), delta)
 				}
 			case len(vals) == 0:
 				tags = append(tags, "absent")
@@ -1007,7 +1075,7 @@ func c08RunVB(c *c08Case) (res Result) {
 					want = 1
 				}
 				if invoked != 0 || changed {
-					fail(i, "CustomFunc: absent parameter but the function was invoked %d times (destination %v -> %v)", invoked, initVals, vals2)
+					fail(i, "CustomFunc: absent parameter but the function was invoked %d times (destination %v -> %v)", invoked, c08L(initVals), c08L(vals2))
 				}
 				if delta != want {
 					fail(i, "CustomFunc: absent parameter recorded %d errors, want %d", delta, want)
@@ -1017,7 +1085,7 @@ func c08RunVB(c *c08Case) (res Result) {
 				if invoked != 1 {
 					fail(i, "CustomFunc: parameter present but the function was invoked %d times", invoked)
 				} else if !c08Same(got, false, vals, false) {
-					fail(i, "CustomFunc: the function received %q, the request carries %q", got, vals)
+					fail(i, "CustomFunc: the function received %v, the request carries %v", c08L(got), c08L(vals))
 				}
 				nontrivial = true
 			}
@@ -1077,7 +1145,8 @@ func c08RunVB(c *c08Case) (res Result) {
 		case "call":
 			cl := &c08Call{}
 			*cl = *op.Call
-			cl.Values = seen(cl.Values)
+			cl.Values = seen(op.Call.all())
+			cl.Pad, cl.PadTexts, cl.PadJoin = 0, nil, false
 			var mi c08MI
 			supported := true
 			isDelim := strings.HasSuffix(cl.Method, "BindWithDelimiter")
@@ -1188,6 +1257,9 @@ func c08RunVB(c *c08Case) (res Result) {
 				tag += ":" + cl.Elem
 			}
 			tags = append(tags, tag)
+			if t := c08CountTag(len(pieces)); t != "" {
+				tags = append(tags, t)
+			}
 			if pending > 0 {
 				hadErrThenCall = true
 			}
@@ -1195,7 +1267,7 @@ func c08RunVB(c *c08Case) (res Result) {
 			case frozen:
 				tags = append(tags, "frozen")
 				if changed || delta != 0 {
-					fail(i, "fail-fast binder with a recorded error: %s wrote %v (was %v) / recorded %d new errors", cl.Method, vals, initVals, delta)
+					fail(i, "fail-fast binder with a recorded error: %s wrote %v (was %v) / recorded %d new errors", cl.Method, c08L(vals), c08L(initVals), delta)
 				}
 			case !present:
 				tags = append(tags, "absent")
@@ -1204,7 +1276,7 @@ func c08RunVB(c *c08Case) (res Result) {
 					want = 1
 				}
 				if changed {
-					fail(i, "%s: absent/empty value but the destination changed from %v to %v", cl.Method, initVals, vals)
+					fail(i, "%s: absent/empty value but the destination changed from %v to %v", cl.Method, c08L(initVals), c08L(vals))
 				}
 				if delta != want {
 					fail(i, "%s: absent/empty value recorded %d errors, want %d", cl.Method, delta, want)
@@ -1229,27 +1301,27 @@ func c08RunVB(c *c08Case) (res Result) {
 				case !allOK:
 					tags = append(tags, "reject")
 					if delta == 0 {
-						fail(i, "%s: %q does not denote a value of %v but no error was recorded (stored %v)", cl.Method, pieces, mi.T, vals)
+						fail(i, "%s: %v does not denote a value of %v but no error was recorded (stored %v)", cl.Method, c08L(pieces), mi.T, c08L(vals))
 					}
 					if changed {
-						fail(i, "%s: failing call changed its destination from %v to %v (input %q)", cl.Method, initVals, vals, pieces)
+						fail(i, "%s: failing call changed its destination from %v to %v (input %v)", cl.Method, c08L(initVals), c08L(vals), c08L(pieces))
 					}
 				case mi.Fam == famStr || pending == 0:
 					tags = append(tags, "accept")
 					if delta != 0 {
-						fail(i, "%s: %q denotes %v, which fits %v, but %d errors were recorded", cl.Method, pieces, dens, mi.T, delta)
+						fail(i, "%s: %v denotes %v, which fits %v, but %d errors were recorded", cl.Method, c08L(pieces), c08L(dens), mi.T, delta)
 					} else if !exact {
-						fail(i, "%s: %q denotes %v but the destination holds %v", cl.Method, pieces, dens, vals)
+						fail(i, "%s: %v denotes %v but the destination holds %v", cl.Method, c08L(pieces), c08L(dens), c08L(vals))
 					}
 				default:
 					// non-fail-fast binder that already holds errors: scalar methods still write,
 					// slice methods skip the assignment; either way the chain reports an error
 					tags = append(tags, "accept-after-error")
 					if delta != 0 {
-						fail(i, "%s: valid input %q recorded %d errors", cl.Method, pieces, delta)
+						fail(i, "%s: valid input %v recorded %d errors", cl.Method, c08L(pieces), delta)
 					}
 					if changed && !exact {
-						fail(i, "%s: %q denotes %v but the destination holds %v", cl.Method, pieces, dens, vals)
+						fail(i, "%s: %v denotes %v but the destination holds %v", cl.Method, c08L(pieces), c08L(dens), c08L(vals))
 					}
 				}
 				for _, p := range pieces {
@@ -1479,25 +1551,7 @@ func c08RunStruct(c *c08Case) (res Result) {
 		}
 	}
 	twoPass := c.Source == "param+query"
-	collect := func(fields []c08Field, single bool) map[string][]string {
-		data := map[string][]string{}
-		for _, f := range fields {
-			if _, ok := c08CatByN[f.Name]; !ok || len(f.Values) == 0 {
-				continue
-			}
-			if single {
-				data[f.Name] = f.Values[:1]
-			} else {
-				data[f.Name] = append(data[f.Name], f.Values...)
-			}
-		}
-		return data
-	}
-	data := collect(c.Fields, c.Source == "param" || twoPass)
-	data2 := map[string][]string{}
-	if twoPass {
-		data2 = collect(c.Fields2, false)
-	}
+	data, data2 := c08StructData(c)
 	var present []c08FieldInfo
 	for _, info := range infos {
 		_, ok1 := data[info.Name]
@@ -1697,6 +1751,9 @@ func c08RunStruct(c *c08Case) (res Result) {
 			tbl.addFor(info.Fam, info.E, c08StructDefault(info.Fam, v))
 		}
 		tags = append(tags, fmt.Sprintf("field:w%d-f%d-t%d", info.Wrap, info.Fam, info.Ty))
+		if t := c08CountTag(len(v1)); t != "" {
+			tags = append(tags, t, fmt.Sprintf("%s:w%d", t, info.Wrap))
+		}
 	}
 	line := tbl.wire() + " " + strings.Join(ops, " ")
 	if panicked != "" {
@@ -1757,13 +1814,13 @@ func c08RunStruct(c *c08Case) (res Result) {
 		if fieldBad {
 			anyBad = true
 			if err == nil {
-				fail("field %s: a text in %v / %v does not denote a value of its type but Bind returned no error (holds %v)", info.Name, data[info.Name], data2[info.Name], vals)
+				fail("field %s: a text in %v / %v does not denote a value of its type but Bind returned no error (holds %v)", info.Name, c08L(data[info.Name]), c08L(data2[info.Name]), c08L(vals))
 			}
 			continue
 		}
 		if err == nil {
 			if state == "nil" || state == "ptrnil" || !c08Same(vals, false, lastDens, false) {
-				fail("field %s (held %v before): the last source carrying its key denotes %v but the field holds %v (%s)", info.Name, init.vals, lastDens, vals, state)
+				fail("field %s (held %v before): the last source carrying its key denotes %v but the field holds %v (%s)", info.Name, c08L(init.vals), c08L(lastDens), c08L(vals), state)
 			}
 			continue
 		}
@@ -1785,7 +1842,7 @@ func c08RunStruct(c *c08Case) (res Result) {
 			okState = true // the pointer is allocated before UnmarshalParams is called
 		}
 		if !okState {
-			fail("field %s: held %v (%s) before, texts denote %v, holds %v (%s) after a failed Bind", info.Name, init.vals, init.state, allDens, vals, state)
+			fail("field %s: held %v (%s) before, texts denote %v, holds %v (%s) after a failed Bind", info.Name, c08L(init.vals), init.state, allDens, c08L(vals), state)
 		}
 	}
 	// fields for which no source carries a key are never touched
@@ -1795,7 +1852,7 @@ func c08RunStruct(c *c08Case) (res Result) {
 		}
 		_, vals, state := c08FVal(info, dst.Elem().Field(info.Idx))
 		if state != before[info.Idx].state || !c08Same(vals, false, before[info.Idx].vals, false) {
-			fail("field %s changed from %v to %v although no source carries its key", info.Name, before[info.Idx].vals, vals)
+			fail("field %s changed from %v to %v although no source carries its key", info.Name, c08L(before[info.Idx].vals), c08L(vals))
 		}
 	}
 	if err != nil && !anyBad {
